@@ -225,23 +225,42 @@ def _scan(toks, i, end, it, impl_type, impl_trait):
         if t.k == "id" and t.s == "impl" and impl_type is None:
             j = i + 1
             if toks[j].s == "<":
-                # generic impl: skipped as a whole (outside the subset)
-                while toks[j].s != "{":
+                # generic impl<..> Name<..> { }: the type parameters are table types of the target (e.g. K, V)
+                depth = 0
+                while True:
+                    if toks[j].s == "<":
+                        depth += 1
+                    elif toks[j].s == ">":
+                        depth -= 1
+                    elif toks[j].s == ">>":
+                        depth -= 2
                     j += 1
-                i = skip_group(toks, j)
-                continue
+                    if depth <= 0:
+                        break
             hdr = []
+            depth = 0
             while toks[j].s != "{":
-                hdr.append(toks[j])
+                if toks[j].s == "<":
+                    depth += 1
+                elif toks[j].s == ">":
+                    depth -= 1
+                elif toks[j].s == ">>":
+                    depth -= 2
+                elif depth == 0:
+                    hdr.append(toks[j])
                 j += 1
             e = skip_group(toks, j)
             names = [x.s for x in hdr]
             if "for" in names:
                 k = names.index("for")
                 trait = "".join(names[:k])
-                ty = [x for x in names[k + 1:] if x != "where"]
+                ty = names[k + 1:]
+                if "where" in ty:
+                    ty = ty[:ty.index("where")]
             else:
                 trait, ty = None, names
+                if "where" in ty:
+                    ty = ty[:ty.index("where")]
             if any(x in ("<", "&", "where") for x in ty):
                 i = e
                 continue
@@ -544,7 +563,12 @@ class Parser:
             r = self.expr(no_struct)
             return ("assign", s, e, r)
         if s in ("..", "..="):
-            self.err("range expressions are outside the subset")
+            # ranges: parsed (pinnable), never translated
+            self.eat()
+            hi = None
+            if self.peek() not in ("]", ")", "}", ",", ";", None):
+                hi = self.binary(0, no_struct)
+            return ("range", s, e, hi)
         return e
 
     def binary(self, lvl, ns):
@@ -574,7 +598,8 @@ class Parser:
         if self.kind() == "op" and s in ("&", "&&"):
             self.eat()
             if self.peek() == "mut":
-                self.err("`&mut` expressions are outside the subset")
+                self.eat()
+                return ("unary", "&mut", self.unary(ns))     # parsed so that a target can bind / pin it; never translated
             e = self.unary(ns)
             return ("unary", "&", e)
         return self.postfix(ns)
@@ -676,7 +701,13 @@ class Parser:
                 self.eat(";")
                 stmts.append(("let", p, ty, init, els, mut))
                 continue
-            if s in ("use", "fn", "struct", "impl", "const", "static", "loop", "break", "continue"):
+            if s == "continue":
+                self.eat()
+                if self.peek() == ";":
+                    self.eat()
+                stmts.append(("expr", ("continue",)))
+                continue
+            if s in ("use", "fn", "struct", "impl", "const", "static"):
                 self.err(f"`{s}` inside a function body is outside the subset")
             e = self.expr()
             if self.peek() == ";":
@@ -686,7 +717,7 @@ class Parser:
                 stmts.append(("expr", e))
             elif self.peek() == "}":
                 tail = e
-            elif e[0] in ("if", "match", "while", "for", "block"):
+            elif e[0] in ("if", "match", "while", "for", "block", "loop"):
                 stmts.append(("expr", e))
             else:
                 self.err(f"expected ; or }} after expression, got {self.peek()!r}")
@@ -725,6 +756,22 @@ class Parser:
             return ("tuple", es)
         if s == "{":
             return self.block()
+        if s in ("..", "..="):
+            self.eat()
+            hi = None
+            if self.peek() not in ("]", ")", "}", ",", ";", None):
+                hi = self.binary(0, ns)
+            return ("range", s, None, hi)
+        if s == "[":
+            # array literal: parsed (pinnable), never translated
+            self.eat()
+            es = []
+            while self.peek() != "]":
+                es.append(self.expr())
+                if self.peek() in (",", ";"):
+                    es.append(self.eat())
+            self.eat("]")
+            return ("array", es)
         if s == "if":
             self.eat()
             if self.peek() == "let":
@@ -750,8 +797,12 @@ class Parser:
             while self.peek() != "}":
                 self.skip_attrs()
                 p = self.pattern()
-                while self.peek() == "|":
-                    self.err("or-patterns are outside the subset")
+                if self.peek() == "|":
+                    alts = [p]          # or-pattern: parsed (pinnable), never translated
+                    while self.peek() == "|":
+                        self.eat()
+                        alts.append(self.pattern())
+                    p = ("por", alts)
                 if self.peek() == "if":
                     self.err("match guards are outside the subset")
                 self.eat("=>")
@@ -793,21 +844,50 @@ class Parser:
                         self.eat()
                 self.eat("|")
             return ("closure", ps, self.expr())
-        if s in ("move", "loop", "unsafe", "async", "break", "continue"):
+        if s == "loop":
+            self.eat()
+            return ("loop", self.block())        # parsed (so that the rest of a body can be pinned); never translated
+        if s in ("break", "continue"):
+            self.eat()
+            return (s,)
+        if s == "async" and self.peek(1) == "{":
+            self.eat()
+            return ("async_block", self.block())
+        if s in ("move", "unsafe", "async"):
             self.err(f"`{s}` is outside the subset")
         if k == "id":
             segs = [self.eat()]
             while self.peek() == "::":
                 self.eat()
                 if self.peek() == "<":
-                    self.err("turbofish is outside the subset")
+                    # path turbofish: parsed (bindable / pinnable), the segment makes every table lookup fail
+                    depth, txt = 0, []
+                    while True:
+                        t0 = self.eat()
+                        txt.append(t0)
+                        depth += {"<": 1, ">": -1, ">>": -2}.get(t0, 0)
+                        if depth <= 0:
+                            break
+                    segs.append("".join(txt))
+                    continue
                 segs.append(self.eat())
             if self.peek() == "!":
                 name = segs[-1]
                 self.eat()
+                if name == "vec" and self.peek() == "[" and self.peek(1) == "]":
+                    self.eat()
+                    self.eat()
+                    return ("call", ["Vec", "new"], [])
                 if segs[0] == "tracing" and self.peek() == "(":
                     self.i = skip_group(self.t, self.i)      # logging: never translated
                     return ("macro", "tracing", [])
+                if name not in ("assert", "assert_eq", "assert_ne", "debug_assert", "unreachable", "panic", "ensure", "bail", "format_err") \
+                        and self.peek() in ("(", "[", "{"):
+                    # any other macro: kept as an opaque token group (it can be pinned or bound by a target, never translated)
+                    j = skip_group(self.t, self.i)
+                    txt = " ".join(t.s for t in self.t[self.i:j])
+                    self.i = j
+                    return ("macro_opaque", "::".join(segs), txt)
                 if self.peek() not in ("(", "["):
                     self.err("macro with { } is outside the subset")
                 if name not in ("assert", "assert_eq", "assert_ne", "debug_assert", "unreachable", "panic", "ensure", "bail", "format_err"):
